@@ -269,3 +269,162 @@ func (r *Run) Finish() int {
 	}
 	return 0
 }
+
+// External is the result file format written by overlay tests that cannot import this package.
+type External struct {
+	Evaluations int64            `json:"evaluations"`
+	Distinct    []string         `json:"distinct"`
+	Samples     []any            `json:"samples"`
+	Counters    map[string]int64 `json:"counters"`
+	Violations  []struct {
+		Fingerprint string `json:"fingerprint"`
+		What        string `json:"what"`
+		Witness     any    `json:"witness"`
+	} `json:"violations"`
+	Inconclusive []string `json:"inconclusive"`
+}
+
+// Merge folds an External result file into the run. A missing / unreadable file is inconclusive.
+func (r *Run) Merge(path, prefix string) *External {
+	b, err := os.ReadFile(path)
+	if err != nil {
+		r.Inconclusive("result file of " + prefix + " missing: " + err.Error())
+		return nil
+	}
+	var x External
+	if err := json.Unmarshal(b, &x); err != nil {
+		r.Inconclusive("result file of " + prefix + " unreadable: " + err.Error())
+		return nil
+	}
+	r.Eval(int(x.Evaluations))
+	for _, d := range x.Distinct {
+		r.Distinct(prefix + "/" + d)
+	}
+	for _, s := range x.Samples {
+		r.Sample(s)
+	}
+	for k, v := range x.Counters {
+		r.Count(k, int(v))
+	}
+	for _, v := range x.Violations {
+		r.Violation(prefix+"/"+v.Fingerprint, v.What, v.Witness)
+	}
+	for _, i := range x.Inconclusive {
+		r.Inconclusive(prefix + ": " + i)
+	}
+	return &x
+}
+
+// CoverCount reads a Go cover profile and returns the execution count of the block of
+// file (suffix match) that contains the given line; found=false if no block matches.
+func CoverCount(profile, fileSuffix string, line int) (count int64, found bool) {
+	b, err := os.ReadFile(profile)
+	if err != nil {
+		return 0, false
+	}
+	best := -1
+	for _, l := range splitLines(string(b)) {
+		// name.go:line.col,line.col numstmt count
+		var file string
+		var l0, c0, l1, c1, ns int
+		var cnt int64
+		i := lastIndex(l, ':')
+		if i < 0 {
+			continue
+		}
+		file = l[:i]
+		if _, err := fmt.Sscanf(l[i+1:], "%d.%d,%d.%d %d %d", &l0, &c0, &l1, &c1, &ns, &cnt); err != nil {
+			continue
+		}
+		if !hasSuffix(file, fileSuffix) || line < l0 || line > l1 {
+			continue
+		}
+		// choose the smallest enclosing block
+		if span := l1 - l0; best < 0 || span < best {
+			best = span
+			count = cnt
+			found = true
+		}
+	}
+	return count, found
+}
+
+func splitLines(s string) []string {
+	var out []string
+	cur := ""
+	for _, c := range s {
+		if c == '\n' {
+			out = append(out, cur)
+			cur = ""
+		} else {
+			cur += string(c)
+		}
+	}
+	if cur != "" {
+		out = append(out, cur)
+	}
+	return out
+}
+func lastIndex(s string, c byte) int {
+	for i := len(s) - 1; i >= 0; i-- {
+		if s[i] == c {
+			return i
+		}
+	}
+	return -1
+}
+func hasSuffix(s, suf string) bool { return len(s) >= len(suf) && s[len(s)-len(suf):] == suf }
+
+// FindLine returns the 1-based number of the first line of file containing needle (0 if none).
+func FindLine(file, needle string) int {
+	b, err := os.ReadFile(file)
+	if err != nil {
+		return 0
+	}
+	for i, l := range splitLines(string(b)) {
+		if len(needle) > 0 && contains(l, needle) {
+			return i + 1
+		}
+	}
+	return 0
+}
+func contains(s, sub string) bool {
+	for i := 0; i+len(sub) <= len(s); i++ {
+		if s[i:i+len(sub)] == sub {
+			return true
+		}
+	}
+	return false
+}
+
+// RaceReports returns the race detector reports written so far by this process or by
+// child processes into the GORACE log_path prefix (dir/prefix.*).
+func RaceReports(globPrefix string) []string {
+	matches, _ := filepath.Glob(globPrefix + ".*")
+	var out []string
+	for _, m := range matches {
+		b, err := os.ReadFile(m)
+		if err != nil {
+			continue
+		}
+		cur := ""
+		in := false
+		for _, l := range splitLines(string(b)) {
+			if contains(l, "WARNING: DATA RACE") {
+				in = true
+				cur = ""
+			}
+			if in {
+				cur += l + "\n"
+			}
+			if in && l == "==================" && len(cur) > 30 {
+				out = append(out, cur)
+				in = false
+			}
+		}
+		if in && cur != "" {
+			out = append(out, cur)
+		}
+	}
+	return out
+}
